@@ -18,8 +18,11 @@ ALL = frozenset(["Build", "InMemoryBuild", "Clean", "Verify"])
 
 
 class Modes:
-    def __init__(self, prog, mode_adts=MODE_ADTS, all_modes=ALL):
+    def __init__(self, prog, mode_adts=None, all_modes=ALL):
         self.prog = prog
+        if mode_adts is None:
+            import common
+            mode_adts = (common.ADT["Mode"], common.ADT["CtxOut"], "txtpp::Mode")
         self.mode_adts = mode_adts
         self.all = all_modes
         self._local = {}
